@@ -159,4 +159,42 @@ theorem gc_removes_unused (env : Env Oid) (hn : Name) (sh : Bool) (store : List 
 example : gc (Oid := Nat) (Name := Nat) { isDir := fun o => o ≥ 10, load := fun d => if d = 10 then some [1, 2] else none }
     0 false false false [1, 2, 3, 10, 11] [(0, 10), (1, 3)] = .ok 2 [1, 2, 10] := by decide
 
+/-- **a dry run touches nothing at all** — not the objects (`gc_dry_noop`) and not the `.unpacked` leftovers next to
+    directory objects either (the unrepaired code removed those while listing, F16) -/
+theorem gc_dry_leftovers_untouched (env : Env Oid) (hn : Name) (ro sh : Bool) (store : List Oid)
+    (used : List (Name × Oid)) (extras : List Oid) : gcLeftovers env hn ro sh true store used extras = extras := by
+  simp [gcLeftovers]
+
+/-- a refused run (read-only store) touches none either -/
+theorem gc_readonly_leftovers_untouched (env : Env Oid) (hn : Name) (sh dry : Bool) (store : List Oid)
+    (used : List (Name × Oid)) (extras : List Oid) : gcLeftovers env hn true sh dry store used extras = extras := by
+  unfold gcLeftovers
+  cases dry
+  · simp [gc_readonly_refused]
+  · simp
+
+/-- a real run takes a leftover along exactly when it removes the directory object it sits next to: a leftover of a
+    kept (used) directory object, or of something that is no stored directory object, stays -/
+theorem gc_leftover_follows_object (env : Env Oid) (hn : Name) (sh : Bool) (store : List Oid)
+    (used : List (Name × Oid)) (extras : List Oid) (n : Nat) (s' : List Oid)
+    (h : gc env hn false sh false store used = .ok n s') (o : Oid) :
+    o ∈ gcLeftovers env hn false sh false store used extras ↔
+      (o ∈ extras ∧ ¬ (o ∈ store ∧ env.isDir o = true ∧ o ∉ s')) := by
+  unfold gcLeftovers
+  simp only [Bool.false_eq_true, if_false, h, List.mem_filter]
+  constructor
+  · rintro ⟨he, hc⟩
+    refine ⟨he, ?_⟩
+    rintro ⟨h1, h2, h3⟩
+    simp [h1, h2, h3] at hc
+  · rintro ⟨he, hn'⟩
+    refine ⟨he, ?_⟩
+    by_cases hs : o ∈ s'
+    · simp [hs]
+    · by_cases h1 : o ∈ store
+      · by_cases h2 : env.isDir o = true
+        · exact absurd ⟨h1, h2, hs⟩ hn'
+        · simp [h2]
+      · simp [h1]
+
 end DvcData.Status
